@@ -139,36 +139,66 @@ impl Hasher for PlanHasher {
     fn finish(&self) -> u64 {
         world::callback(Class::Hash);
         let lawful = self.plan.hash(self.id);
-        let (mode, quiet) = world::with(|w| (w.chaos.mode, w.quiet > 0));
-        if mode == 0 || quiet {
-            return lawful;
-        }
-        match mode {
-            1 | 8 => world::with(|w| {
-                let c = &mut w.chaos;
-                if c.hash_tape.is_empty() {
-                    lawful
-                } else {
-                    let v = c.hash_tape[c.hash_pos % c.hash_tape.len()];
-                    c.hash_pos += 1;
-                    v
-                }
-            }),
-            2 => {
-                let p = world::with(|w| {
-                    w.chaos.hash_pos += 1;
-                    w.chaos.hash_pos & 1
-                });
-                if p == 1 {
-                    lawful
-                } else {
-                    !lawful
-                }
-            }
-            3 => self.plan.hash(self.id ^ (self.gen << 20)),
-            _ => lawful,
-        }
+        chaos_hash(lawful, || self.plan.hash(self.id ^ (self.gen << 20)))
     }
+}
+
+/// Answer of a possibly inconsistent hash function: `lawful` unless the thread's chaos mode says
+/// otherwise (1/8: next value of the hash tape, 2: complemented on every second call, 3: `alt()`,
+/// a hash that depends on a field `Eq` ignores). Not counted as a callback; shared by `PlanHasher`
+/// and by the caller-side hasher closures of the HashTable interpreter.
+pub fn chaos_hash(lawful: u64, alt: impl FnOnce() -> u64) -> u64 {
+    let (mode, quiet) = world::with(|w| (w.chaos.mode, w.quiet > 0));
+    if mode == 0 || quiet {
+        return lawful;
+    }
+    match mode {
+        1 | 8 => world::with(|w| {
+            let c = &mut w.chaos;
+            if c.hash_tape.is_empty() {
+                lawful
+            } else {
+                let v = c.hash_tape[c.hash_pos % c.hash_tape.len()];
+                c.hash_pos += 1;
+                v
+            }
+        }),
+        2 => {
+            let p = world::with(|w| {
+                w.chaos.hash_pos += 1;
+                w.chaos.hash_pos & 1
+            });
+            if p == 1 {
+                lawful
+            } else {
+                !lawful
+            }
+        }
+        3 => alt(),
+        _ => lawful,
+    }
+}
+
+/// Install the answer tapes of a case (`chaos`, `tape_len`, `tape_seed`, `tape_small`) in the World.
+pub fn setup_chaos(case: &crate::case::Case) {
+    world::with(|w| {
+        w.chaos.mode = case.h("chaos") as u32;
+        let n = (case.h_or("tape_len", 16) as usize).clamp(1, 256);
+        let ts = case.h("tape_seed");
+        let small = case.h("tape_small") != 0;
+        w.chaos.hash_tape = (0..n)
+            .map(|i| {
+                let r = splitmix64(ts.wrapping_add(i as u64));
+                if small {
+                    // a few values only: collisions in position and tag are common
+                    [0u64, u64::MAX, 0x0100_0000_0000_0007, 0xFE00_0000_0000_0010][(r % 4) as usize]
+                } else {
+                    r
+                }
+            })
+            .collect();
+        w.chaos.eq_tape = (0..n).map(|i| splitmix64(ts.wrapping_mul(31).wrapping_add(i as u64)) & 1 == 1).collect();
+    });
 }
 
 /// Hash of an id under a plan, without counting as a callback (oracle side).
